@@ -74,22 +74,30 @@ def check_seq(prop, tier, seed, scale=1.0):
     if prop in ("C02", "C13"):
         # AddressSanitizer build cooperating with SimAlloc: out-of-bounds / use-after-free reads
         variants.append("asan")
+    if prop in ("C01", "C03", "C04"):
+        # hook K1 (MAX_VEC_POS = 61): the 32-bit-only promotion inside advance is exercised
+        variants.append("knob")
     for v in variants:
         C.build(v, ("seq",))
     found, sums, crashes = [], [], 0
     per_variant = {}
     for v in variants:
-        r = C.run_batch("seq", v, seed, tag + (50000 if v == "asan" else 0), profile, runs // 2 if v == "asan" else runs, steps)
+        r = C.run_batch("seq", v, seed, tag + (50000 if v == "asan" else 70000 if v == "knob" else 0), profile, runs // 2 if v in ("asan", "knob") else runs, steps)
         found += [(v, rec) for rec in r["violations"]]
         sums += r["summaries"]
         crashes += r["crashes"]
         per_variant[v] = sum(s.get("runs", 0) for s in r["summaries"])
+    miri_cov = {}
+    if prop in ("C02", "C13"):
+        mfound, miri_cov = miri_seq_tier(prop, tier, seed, scale, "fault" if prop == "C13" else "std")
+        found += mfound
     n_unknown = handle_violations(prop, "seq", found, tier)
     tot = C.merge_summaries(sums)
     wall = time.time() - t0
     cov = {
-        "evaluations": tot["runs"],
+        "evaluations": tot["runs"] + miri_cov.get("executions", 0),
         "distinct_nontrivial": len(tot["nontrivial"]),
+        "miri_tier": miri_cov,
         "rule": RULES["seq"].replace("<=N", "<=%d" % steps),
         "samples": tot["samples"][:2] or [{"note": "no sample recorded"}],
         "steps": tot["steps"],
@@ -303,6 +311,66 @@ def miri_classify(rc, out, err):
     if "panicked" in text:
         return (["C05"], "miri:panic", m[:400])
     return (["C05"], "miri:failed", m[:400])
+
+
+def miri_seq_run(args, miri_seed, timeout=1500):
+    env = dict(C.ENV)
+    env["MIRIFLAGS"] = "-Zmiri-seed=%d -Zmiri-disable-isolation" % miri_seed
+    cmd = ["cargo", "+nightly", "miri", "run", "--offline", "-q", "-p", "seq", "--no-default-features", "--features", "std",
+           "--target-dir", os.path.join(C.TARGET, "miri-seq"), "--"] + args
+    try:
+        r = subprocess.run(cmd, cwd=C.SIM, env=env, stdout=subprocess.PIPE, stderr=subprocess.PIPE, text=True, timeout=timeout)
+    except subprocess.TimeoutExpired:
+        return ("timeout", "", "")
+    return (r.returncode, r.stdout, r.stderr)
+
+
+def miri_seq_tier(prop, tier, seed, scale, profile="std"):
+    """E-miri(seq): the E-seq workloads with SimAlloc compiled out, interpreted by Miri — any UB on
+    the executed path of the crate (out-of-bounds, use-after-free, invalid from_raw_parts, layout
+    mismatch at dealloc, uninitialised reads, Stacked Borrows) and any leak is reported by Miri;
+    the value model still runs. Returns (found, coverage)."""
+    from concurrent.futures import ThreadPoolExecutor
+    tag = 940
+    per = 5
+    steps = 20
+    n_proc = max(16, int((16 if tier == "quick" else 640) * scale))
+    # build once (first invocation compiles)
+    miri_seq_run(["batch", "--seed", "1", "--from", "0", "--to", "0"], 0)
+    jobs = [(i, C.mix_py(seed, tag, i) & 0xffffffff) for i in range(n_proc)]
+
+    def work(job):
+        i, mseed = job
+        args = ["batch", "--seed", str(seed), "--tag", str(tag), "--from", str(i * per), "--to", str((i + 1) * per), "--profile", profile, "--steps", str(steps)]
+        return job, args, miri_seq_run(args, mseed)
+
+    found, runs, steps_done = [], 0, 0
+    with ThreadPoolExecutor(max_workers=C.NCPU) as ex:
+        for (i, mseed), args, (rc, out, err) in ex.map(work, jobs):
+            recs = []
+            for line in out.splitlines():
+                if line.startswith("{"):
+                    try:
+                        recs.append(json.loads(line))
+                    except Exception:
+                        pass
+            for j in recs:
+                if j.get("type") == "summary":
+                    runs += j.get("runs", 0)
+                    steps_done += j.get("steps", 0)
+                elif j.get("type") == "violation":
+                    j["engine"] = "miri-seq"
+                    j["miri"] = {"args": args, "seed": mseed}
+                    found.append(("miri", j))
+            if rc != 0:
+                cls = miri_classify(rc, "", err)
+                props, kind, detail = cls if cls else (["C02"], "miri:failed", "exit %s" % rc)
+                props = ["C02", "C13"] if "undefined" in kind or "failed" in kind else (["C03"] if "leak" in kind else ["C02"])
+                found.append(("miri", {"engine": "miri-seq", "profile": profile, "run": i, "seed": mseed, "cfg": {}, "ops": [],
+                                       "miri": {"args": args, "seed": mseed},
+                                       "violations": [{"props": props, "kind": kind, "detail": detail, "step": 0}]}))
+    return found, {"executions": runs, "steps": steps_done, "processes": n_proc,
+                   "note": "E-seq histories (<=%d steps) interpreted by Miri without SimAlloc; Miri's UB and leak detection are the oracle" % steps}
 
 
 def miri_build():
@@ -728,8 +796,10 @@ def setup():
     C.build("nostd-debug", ("seq",))
     C.build("xplat", ("seq", "buf"))
     C.build("asan", ("seq", "buf"))
+    C.build("knob", ("seq",))
     C.build_sched("vrelease")
     miri_build()
+    miri_seq_run(["batch", "--seed", "1", "--from", "0", "--to", "0"], 0)
 
 
 def replay(prop, path):
@@ -767,6 +837,8 @@ def replay(prop, path):
     variant = rec.get("variant", "vdebug")
     if engine == "miri":
         miri_build()
+    elif engine == "miri-seq":
+        pass
     else:
         C.build(variant, (engine,))
     want = rec.get("violation", {}).get("kind")
